@@ -339,6 +339,7 @@ def simp(t):
          mutsub(B, B[k], m, args)[k]      -> B[k]{.m(args)}
          x{.append(a)}[-1]                -> a
          [e0, e1, ...][i]                 -> ei
+         {..., k: v, ...}[k]              -> v          (no ** after it)
     """
     def neg1(x):
         return x == ("const", -1) or x == ("un", "-", ("const", 1))
@@ -361,6 +362,14 @@ def simp(t):
         if b[0] == "list" and k[0] == "const" and isinstance(k[1], int) \
                 and -len(b[1]) <= k[1] < len(b[1]):
             return b[1][k[1]]
+        if b[0] == "dict" and len(b) == 3 and k[0] == "const":
+            # display lookup: later entries win; a ** spread after the
+            # entry could override it
+            for kk, vv in reversed(list(zip(b[1], b[2]))):
+                if kk[0] == "star":
+                    break
+                if kk == k:
+                    return vv
         return x
     return map_term(t, f)
 
